@@ -31,11 +31,11 @@ namespace Lasio.Dt
 
 /-- what the two engines are given: the normal engine visits exactly the body; the numpy engine gets everything after the title
 and `max_rows = |body|` (`Body`, `PlainData`, `Numeric` are defined in Lemmas/DataLemmas.lean) -/
-theorem C02_window (pre : List Str) (title : Str) (body after : List Str) (hb : body ≠ []) :
+theorem C02_window (pre : List Str) (title : Str) (body after : List Str) :
     bodyLines (pre ++ title :: (body ++ after)) pre.length (pre.length + body.length) = body ∧
     (pre ++ title :: (body ++ after)).drop (pre.length + 1) = body ++ after ∧
     (pre.length + body.length) - pre.length = body.length :=
-  window_plain pre title body after hb
+  window_plain pre title body after
 
 /-- On the body given explicitly both engines give the r × c token matrix (numeric tokens, `n_columns = c`,
 `max_rows ≥ r`). -/
@@ -61,7 +61,7 @@ theorem C02_normal_value (ft : FloatTable) (e : Engine) (p : NullPolicy) (st : S
   unfold readData
   simp only [hdlm, hs, heng, readerColumns_plain st d c hw]
   unfold normalEngine
-  rw [(window_plain pre title body after (body_ne h.body h.rne)).1, normal_plain ft sb' h.body h.cpos h.rne]
+  rw [(window_plain pre title body after).1, normal_plain ft sb' h.body h.cpos h.rne]
   rfl
 
 /-- **Engines agree**: on plain data the default fast engine and the pure-Python engine give the same curves. -/
@@ -92,7 +92,7 @@ theorem C02_engines_agree (ft : FloatTable) (p : NullPolicy) (st : Steer) (d : N
     unfold readData
     simp only [hdlm, hs, hnp, readerColumns_plain st d c hw]
     unfold numpyEngine normalEngine
-    obtain ⟨hw1, hw2, hw3⟩ := window_plain pre title body after (body_ne h.body h.rne)
+    obtain ⟨hw1, hw2, hw3⟩ := window_plain pre title body after
     rw [hw1, hw2, hw3, normal_plain ft sb' h.body h.cpos h.rne]
     rcases numpy_plain h with hnpy | hnpy <;> rw [hnpy] <;> rfl
 
@@ -111,7 +111,7 @@ theorem C02_numpy_path (ft : FloatTable) (st : Steer) (d : Nat) (pre : List Str)
   unfold readData
   simp only [hdlm, hs, hnp]
   unfold numpyEngine
-  obtain ⟨_, hw2, hw3⟩ := window_plain pre title body after (body_ne h.body h.rne)
+  obtain ⟨_, hw2, hw3⟩ := window_plain pre title body after
   rw [hw2, hw3, numpy_plain_ok h hnum hpath]
   rfl
 
@@ -124,7 +124,7 @@ theorem C02_fallback (ft : FloatTable) (st : Steer) (d : Nat) (pre : List Str) (
     numpyEngine ft (pre ++ title :: (body ++ after)) pre.length (pre.length + body.length) = none ∧
     readData ⟨.numpy, .strict⟩ (pre ++ title :: (body ++ after)) pre.length (pre.length + body.length) st d ft =
       .ok (.normal, plainResult ft .strict st d c rows) := by
-  obtain ⟨hw1, hw2, hw3⟩ := window_plain pre title body after (body_ne h.body h.rne)
+  obtain ⟨hw1, hw2, hw3⟩ := window_plain pre title body after
   have hraise : numpyEngine ft (pre ++ title :: (body ++ after)) pre.length (pre.length + body.length) = none := by
     unfold numpyEngine
     rw [hw2, hw3]
@@ -219,10 +219,34 @@ theorem C02_next_needed :
     readData ⟨.normal, .strict⟩ [c02s "~A\n", c02s "1 2\n", c02s "\n", c02s "3 4\n"] 0 2 stNo 2 ft4 =
       .ok (.normal, [(.declared 0, .floats [c02s "a1"]), (.declared 1, .floats [c02s "a2"])]) := ⟨by rfl, by rfl⟩
 
-/-- zero rows are outside the domain (`rne`): on a data section without any data line genfromtxt returns one EMPTY column, so with
-no declared curve the numpy engine adds an unnamed empty curve and the normal engine adds none -/
+/-- Zero data rows (`PlainData.rne` fails): the engines agree here as well — a section of blank/comment lines only gives no
+columns with either engine (since lasio 627c42f the numpy engine reshapes an empty genfromtxt result to (0, 0); before, it gave
+one empty column and an extra unnamed curve when no curve was declared). -/
+theorem C02_engines_agree_empty (ft : FloatTable) (p : NullPolicy) (st : Steer) (d : Nat) (pre : List Str) (title : Str)
+    (body after : List Str) (hskips : ∀ ln ∈ body, SkipLine ln)
+    (next : after = [] ∨ ∃ ln rest t ts, after = ln :: rest ∧ npTokens ln = t :: ts ∧ toFloat ft t = none)
+    (hdlm : st.delimiter = .space) :
+    (readData ⟨.numpy, p⟩ (pre ++ title :: (body ++ after)) pre.length (pre.length + body.length) st d ft).map Prod.snd =
+    (readData ⟨.normal, p⟩ (pre ++ title :: (body ++ after)) pre.length (pre.length + body.length) st d ft).map Prod.snd := by
+  obtain ⟨hw1, hw2, hw3⟩ := window_plain pre title body after
+  have hn : effectiveEngine ⟨.normal, p⟩ st = .normal := by
+    unfold effectiveEngine; split <;> rfl
+  unfold readData
+  simp only [hdlm, hn]
+  generalize sniffTwice (readSubs Dlm.space) Dlm.space (pre ++ title :: (body ++ after)) pre.length (pre.length + body.length) = sn
+  obtain ⟨sb', cnt⟩ := sn
+  simp only
+  unfold normalEngine numpyEngine
+  rw [hw1, hw2, hw3, normal_empty ft sb' _ body hskips]
+  cases effectiveEngine ⟨.numpy, p⟩ st with
+  | normal => rfl
+  | numpy =>
+    simp only
+    rcases numpy_empty ft body after hskips next with h | h <;> rw [h] <;> rfl
+
+/-- concrete instance: blank line only, no declared curve — both engines return no curve at all -/
 theorem C02_rows_needed :
-    readData ⟨.numpy, .strict⟩ [c02s "~A\n", c02s "\n"] 0 1 stNo 0 ft4 = .ok (.numpy, [(.extra, .floats [])]) ∧
+    readData ⟨.numpy, .strict⟩ [c02s "~A\n", c02s "\n"] 0 1 stNo 0 ft4 = .ok (.numpy, []) ∧
     readData ⟨.normal, .strict⟩ [c02s "~A\n", c02s "\n"] 0 1 stNo 0 ft4 = .ok (.normal, []) := ⟨by rfl, by rfl⟩
 
 end Lasio.Dt
@@ -238,4 +262,5 @@ end Lasio.Dt
 #print axioms Lasio.Dt.C02_numpy_path_needs_hypothesis
 #print axioms Lasio.Dt.C02_numeric_needed
 #print axioms Lasio.Dt.C02_next_needed
+#print axioms Lasio.Dt.C02_engines_agree_empty
 #print axioms Lasio.Dt.C02_rows_needed
